@@ -478,6 +478,37 @@ pub fn run(rep: &mut Report, thorough: bool) {
         );
         rep.stage("sizes", "(every corpus payload + ICMP echo) grown to 15 sizes 1400..70000 x 3 fill bytes x {v4,v6} x {UDP, TCP behind a valid cookie}, overflow-checked build at log level trace", engine::product(&dims), t0);
     }
+    // 4b''. many connections in one table: 70 000 flows, each validated by a first data segment
+    // (a mix of identified protocols, undecided and dead matchers), then a second segment on each
+    {
+        let t0 = std::time::Instant::now();
+        let cfgm = Cfg::base();
+        let firsts: [&[u8]; 5] = [b"GET / HTTP/1.1\r\n\r\n", b"SSH-2.0-x\r\n", b"GE", b"zzzz", b"\x80\x00\x00\x28\x72\xfe\x1d\x13\x00\x00\x00\x00\x00\x00\x00\x02\x00\x01\x86\xa0"];
+        let mut seen = std::collections::HashSet::new();
+        let mut cmds: Vec<Cmd> = Vec::new();
+        let mut second: Vec<Cmd> = Vec::new();
+        let mut sp = 0u32;
+        let mut k = 0usize;
+        // phase A: 5000 flows that are all identified; phase B: the mix
+        while k < 70000 && sp < 4 * 65536 {
+            let f = flow(sp & 1 == 1, (sp >> 1) as u16, 9000 + (sp >> 17) as u16);
+            let g = crate::sip::cookie_guess(cfgm.key, &f.cip, &f.sip, f.cport, f.sport);
+            if seen.insert(g) {
+                let p = if k < 5000 { firsts[0] } else { firsts[k % firsts.len()] };
+                cmds.push(Cmd::Frame(f.tcp(1, g.wrapping_add(1), F_PSH | F_ACK, p)));
+                if k % 7 == 0 {
+                    second.push(Cmd::Frame(f.tcp(1 + p.len() as u32, g.wrapping_add(1), F_PSH | F_ACK, b"T / HTTP/1.1\r\n\r\n")));
+                }
+                k += 1;
+            }
+            sp += 1;
+        }
+        cmds.extend(second);
+        let total = cmds.len() as u64;
+        let opts = RunOpts::new("many-connections").stateful().chunk(1).no_monitor();
+        engine::run(&cfgm, 1, &opts, |_| cmds.clone(), |it: &Item, sk: &mut Sink| sk.count("frames", it.cmds.len() as u64), &mut rep.sink);
+        rep.stage("many-connections", "70000 distinct flows validated in ONE table (the first 5000 all identified as HTTP, then a mix of HTTP / SSH / undecided / dead / ONC-RPC heads), then a second segment on every 7th flow", total, t0);
+    }
     // 4c. connection-level histories: BFS over the real connection table with SYNs, valid and
     // invalid data of several protocols (HTTP, RPC, SSH) on two flows — protocol state that
     // survives a re-identification of the flow must not crash a later handler
